@@ -259,6 +259,46 @@ def obs_events(chk):
             ev['raised'] = not (ok and ok2)
             ev['wk_dev'] = obs.q(np.max(np.abs(cg - p)) / max(np.max(np.abs(p)), 1e-300)) if ok and ok2 and len(cg) == len(p) else (obs.QCAP if ok and ok2 else 0)
             batch.add(ev, {'N': N, 'nfft': nf2, 'kind': kind, 'seed': chk.seed, 'rep': rep})
+    # the definition at EVERY bin, with an error model per bin: a weak component next to a strong one must come out
+    # (large-dynamic-range data).  Reference: direct DFT in extended precision.  A bin may deviate by what an
+    # amplitude error of 16 * eps * log2(NFFT) * sqrt(NFFT) * ||x*w|| explains (the worst-case bound of an FFT for one
+    # bin, constant 16; measured on the unchanged tree: at most 7% of it), plus 1e-12 relative.
+    eps = np.finfo(float).eps
+    for rep in range(12 if chk.tier == 'quick' else 120):
+        N = [64, 33, 16, 48][rep % 4]
+        nfft = [N, N, 2 * N + 1, N + 3][(rep // 4) % 4]
+        n = np.arange(N)
+        cplx = bool(rep % 2)
+        kb = 1 + rep % 7
+        if rep % 3 == 0:
+            x = 1e6 + 1e-3 * np.cos(2 * np.pi * kb * n / N)                   # strong constant + weak on-grid tone
+        elif rep % 3 == 1:
+            x = 1e5 * np.cos(2 * np.pi * 3 * n / N) + 1e-4 * np.cos(2 * np.pi * (3 + kb) * n / N + 0.4)
+        else:
+            x = rng.randn(N) * 10.0 ** rng.uniform(-6, 6, N)
+        if cplx:
+            x = x + 1j * (1e-3 * np.sin(2 * np.pi * kb * n / N) if rep % 3 != 2 else rng.randn(N))
+        name = 'rectangular' if rep % 3 != 2 else names[rep % len(names)]
+        w = window(N, name)
+        if w is None:
+            continue
+        y = (np.asarray(x) * w).astype(np.clongdouble)
+        kk = np.arange(nfft)
+        X = np.array([np.sum(y * np.exp(-2j * np.pi * np.longdouble(k) * n.astype(np.longdouble) / nfft)) for k in kk])
+        P = (np.abs(X) ** 2 / N).astype(float)
+        delta = 16 * eps * max(1.0, np.log2(nfft)) * np.sqrt(nfft) * float(np.sqrt(np.sum(np.abs(y) ** 2)))
+        allowed = (2 * np.abs(X).astype(float) * delta + delta ** 2) / N + 1e-12 * P
+        exp = P if cplx else P[:nfft // 2 + 1]
+        allowed = allowed if cplx else allowed[:nfft // 2 + 1]
+        for form, f in (('function', lambda: speriodogram(x.copy(), NFFT=nfft, detrend=False, scale_by_freq=False, window=name)),
+                        ('class', lambda: np.array(Periodogram(x.copy(), window=name, NFFT=nfft).psd))):
+            ev = {'ev': 'bins', 'N': N, 'nfft': nfft, 'window': name, 'form': form, 'cplx': cplx}
+            ok, p = call_guard(f)
+            ev['raised'] = not ok
+            ev['len_ok'] = bool(ok and np.shape(p) == exp.shape)
+            # ratio of the worst bin error to what the error model allows, in 1e-3 units (<= 1000 passes)
+            ev['bin_ratio'] = obs.q(np.max(np.abs(np.asarray(p) - exp) / allowed), 1e-3) if ev['len_ok'] else 0
+            batch.add(ev, {'N': N, 'nfft': nfft, 'window': name, 'form': form, 'rep': rep, 'seed': chk.seed, 'x': x})
     obs.validate(chk, batch, 'obs-large-N', lambda ev, cl: 'C01:OBS:%s:%s' % (ev['ev'], cl),
                  lambda ev, cl: 'N=%d NFFT=%d %s: clause "%s" fails: %s' % (ev['N'], ev['nfft'], ev.get('window', ''), cl, ev))
     chk.sample('obs-event', batch.events[0], 1)
